@@ -174,6 +174,30 @@ func c12Birth(w *W, d *Day, t hms, ti int) {
 			sy = start.GetYear()
 			// ---- great periods
 			dys := yun.GetDaYun()
+			if full := (g*2 + school - 1) == fullCfg; full {
+				// the ...By(n) variants are prefixes/extensions of the default lists
+				d13 := yun.GetDaYunBy(13)
+				if len(d13) != 13 {
+					w.Viol("C12:GetDaYunBy:len", ctx+": GetDaYunBy(13) has a different length", ctx)
+				} else {
+					for i := 0; i < 10 && i < len(dys); i++ {
+						if d13[i].GetStartYear() != dys[i].GetStartYear() || d13[i].GetGanZhi() != dys[i].GetGanZhi() {
+							w.Viol("C12:GetDaYunBy:prefix:"+d.Ymd, ctx+": GetDaYunBy(13) is not an extension of GetDaYun()", ctx)
+						}
+					}
+					for i := 10; i < 13; i++ {
+						if d13[i].GetStartYear() != d13[i-1].GetEndYear()+1 || d13[i].GetEndYear() != d13[i].GetStartYear()+9 {
+							w.Viol("C12:GetDaYunBy:chain:"+d.Ymd, ctx+": periods beyond the tenth do not continue the chain", ctx)
+						}
+					}
+					if ln := d13[1].GetLiuNianBy(3); len(ln) != 3 || ln[2].GetYear() != d13[1].GetStartYear()+2 {
+						w.Viol("C12:GetLiuNianBy:"+d.Ymd, ctx+": GetLiuNianBy(3) wrong", ctx)
+					}
+					if xy := d13[1].GetXiaoYunBy(3); len(xy) != 3 || xy[2].GetYear() != d13[1].GetStartYear()+2 {
+						w.Viol("C12:GetXiaoYunBy:"+d.Ymd, ctx+": GetXiaoYunBy(3) wrong", ctx)
+					}
+				}
+			}
 			if len(dys) != 10 {
 				w.Viol("C12:DaYun:len", fmt.Sprintf("%s: %d periods", ctx, len(dys)), ctx)
 				continue
